@@ -57,8 +57,38 @@ pub fn check_walks(pp: &mut dnssector::ParsedPacket, d: &Decoded, bytes: &[u8], 
     Ok(())
 }
 
+/// Packets the parser accepts although the reference does not (or finds unspecified): values
+/// cannot be compared, but "no accessor panics ... or alters a single byte" still applies.
+fn c03_robustness_only(src: &mut Src, st: &mut Stats) -> PResult {
+    let (bytes, origin) = gen_input(src);
+    if refdec::decode_strict(&bytes).is_some() {
+        return Ok(());
+    }
+    let mut pp = match lib_parse(&bytes) {
+        Ok(Ok(p)) => p,
+        _ => return Ok(()),
+    };
+    st.class("parser-accepts-reference-does-not");
+    let r = catch(|| {
+        let _ = walk_question(&mut pp);
+        for s in 1..=3 {
+            let _ = walk_section(&mut pp, s, false);
+        }
+        let _ = walk_section(&mut pp, 3, true);
+        let _ = walk_edns(&mut pp);
+    });
+    if let Err(pm) = r {
+        fail!(format!("C03 walk-panic-on-accepted-packet {}", panic_sig(&pm)), "the parser accepts this packet (the reference does not: C02's subject) and an accessor panics: {}; origin={} packet={}", pm, origin.tag(), hex_abbrev(&bytes));
+    }
+    ensure!(pp.packet.as_deref() == Some(&bytes[..]), "C03 walk-altered-packet", "packet changed by read-only walks: {}", hex_abbrev(&bytes));
+    Ok(())
+}
+
 fn c03_case(data: &[u8], st: &mut Stats) -> PResult {
     let mut src = Src::new(data);
+    if src.chance(24) {
+        return c03_robustness_only(&mut src, st);
+    }
     let (bytes, d, tag) = match gen_accepted(&mut src, &GenOpts::default()) {
         Some(x) => x,
         None => {
